@@ -61,6 +61,48 @@ def decoys_for(case, info, rng):
     return extra
 
 
+def capture_search(case, impl_files, model_files):
+    """the implementation emits a qualified name where the model emits the same name anchored at the root (`X::..` vs `::X::..`):
+    look for a program in which C++ name lookup gives the unanchored spelling another meaning - a namespace X declared inside the
+    shell's own namespace (as another Dezyne model of the same program may do) - by compiling the implementation's files with and
+    without such a declaration in front"""
+    import os
+    import legb
+    import gen_mockmodel as MM
+    lost = None
+    for fi, fm in zip(impl_files, model_files):
+        for a, b in zip(fi[1].splitlines(), fm[1].splitlines()):
+            if a != b:
+                mm = re.search(r'::([A-Za-z_]\w*)::', b)
+                if mm and a == b.replace('::' + mm.group(1) + '::', mm.group(1) + '::', 1):
+                    lost = mm.group(1)
+                break
+        if lost:
+            break
+    if not lost:
+        return None
+    plan = legb.plans_for([case])[0]
+    if not isinstance(plan, dict) or not MM.usable(plan) or not plan['scope']:
+        return None
+    wd = legb.Workdir()
+    try:
+        d = wd.sub('cap')
+        legb.materialize(d, impl_files, plan, case['cfg'], shim=True)
+        ns_open = ' '.join(f'namespace {x} {{' for x in plan['scope'])
+        ns_close = '}' * len(plan['scope'])
+        open(os.path.join(d, 'capture.hh'), 'w').write(f'{ns_open} namespace {lost} {{ struct only_here {{}}; }} {ns_close}\n')
+        cc = os.path.join(d, impl_files[1][0])
+        rc0, out0 = legb.gxx(['-fsyntax-only'] + legb.includes(d) + [cc])
+        rc1, out1 = legb.gxx(['-fsyntax-only', '-include', os.path.join(d, 'capture.hh')] + legb.includes(d) + [cc])
+        if rc0 == 0 and rc1 != 0:
+            err = next((l for l in out1.splitlines() if 'error' in l), out1[:200])
+            return (f'FAILING PROGRAM: with a namespace `{"::".join(plan["scope"] + [lost])}` in the translation unit the unanchored name `{lost}::...` '
+                    f'no longer denotes `::{lost}::...` and the generated source does not compile ({err[:200]}); the root-anchored spelling is unaffected')
+    finally:
+        wd.cleanup()
+    return None
+
+
 def main(argv):
     tier, seed = tier_seed(argv)
     rep = Report('C07', tier, seed)
@@ -84,6 +126,7 @@ def main(argv):
         kinds.append('with-unrelated')
     io, mo = BC.run_builds(cases, timeout=3000)
     nv = 0
+    text_only, any_failing = [], False
     for k in range(0, len(cases), 2):
         for j in (k, k + 1):
             rep.case({'cfg': cases[j]['cfg'], 'file': cases[j]['file']}, shape=f'{kinds[j]}/{io[j][0]}')
@@ -109,13 +152,29 @@ def main(argv):
                         # a differing type/interface name in the generated code is a resolution failure; anything else only breaks the tie
                         problem, which = f'generated code differs from the scope-chain model: {d}', j
                         failing = bool(re.search(r'type_\d_t|::I\b|decoy_t|deeper_t', d))
+                        if not failing:
+                            cap = capture_search(cases[j], i[1], m[1])
+                            if cap:
+                                problem, failing = problem + '; ' + cap, True
                 if problem:
                     break
+        if problem and not failing:
+            text_only.append(which)
         if problem and nv < 5:
             nv += 1
+            any_failing = any_failing or failing
             c = cases[which]
             rep.violation(problem, {'file': c['file'], 'configuration': c['cfg'], 'document': dznjson.to_json(c['file']),
                                     'without_unrelated_declarations': cases[k]['file']}, failing_input=failing)
+    if text_only and not any_failing:
+        # only text differences so far: keep searching the other disagreeing cases for a program the difference breaks
+        for j in text_only[:25]:
+            if io[j][0] == 'ok' and mo[j][0] == 'ok':
+                cap = capture_search(cases[j], io[j][1], mo[j][1])
+                if cap:
+                    rep.violation('generated code differs from the scope-chain model; ' + cap,
+                                  {'file': cases[j]['file'], 'configuration': cases[j]['cfg'], 'document': dznjson.to_json(cases[j]['file'])}, failing_input=True)
+                    break
     gate = proof_gate('C07')
     return rep.finish(gate, 'models in which interface I, extern T (and other kinds) share simple names across sibling, nested, global '
                       'and unrelated namespaces, referenced by simple / partially / fully qualified names from nested scopes; every '
